@@ -70,6 +70,8 @@ type c13TARes struct {
 	Before0     c13Tree  `json:"before0,omitempty"`      // crashsim: the tree before the simulated partial post-process
 	// mapped over a typed map: the order in which Fork.postProcess visited the fork keys (console log),
 	// and whether it reported "Could not move output files"
+	FaultTmp string `json:"fault_tmp,omitempty"` // state of _outs.tmp right after the fault: N | S<hex> | L<len>
+	FaultRaw string `json:"fault_raw,omitempty"` // raw _outs right after the fault: S<hex> (when small)
 	Order   []string `json:"order,omitempty"`
 	PostErr string   `json:"post_err,omitempty"`
 }
@@ -862,6 +864,7 @@ func c13CompareAll(c *Ctx, r *Result, specs []*c13TASpec, results []*c13TARes, c
 			input["fault"] = spec.Fault
 			input["fault_arg"] = spec.FaultArg
 			input["fault_point"] = res.FaultPoint
+			c13FaultWriterTie(c, r, spec, res, input)
 			if len(res.FaultFails) > 0 {
 				key := "C13:fault-state"
 				ff := make([]string, len(res.FaultFails))
@@ -1007,4 +1010,40 @@ func c13CrashKey(res *c13TARes, deflt string) string {
 		}
 	}
 	return deflt
+}
+
+// c13FaultWriterTie: the (record, temp sibling) pair observed right after a faulted or killed
+// post-process against the model's writeCut: a NEW record means the rename happened (all steps:
+// no temp file); an OLD record with a temp file is the state after the open and |tmp| bytes
+// (under RLIMIT_FSIZE = L exactly L bytes).
+func c13FaultWriterTie(c *Ctx, r *Result, spec *c13TASpec, res *c13TARes, input map[string]interface{}) {
+	if res.FaultTmp == "" || res.FaultRecord == "" || (spec.Fault != "fsize" && spec.Fault != "kill") {
+		return
+	}
+	r.hist("tierA:fault:" + spec.Fault + ":record-" + res.FaultRecord + ":tmp-" + map[bool]string{true: "absent", false: "present"}[res.FaultTmp == "N"])
+	bad := func(what string, model interface{}) {
+		r.violate(Violation{Kind: "correspondence", Key: "C13:model-writer-fault", Broken: "record_path_old_or_new / writeCut vs the fault stream",
+			What: what, Input: input, Impl: map[string]string{"record": res.FaultRecord, "tmp": c13Short(res.FaultTmp)}, Model: model})
+	}
+	old := []byte("<the old record>")
+	switch {
+	case res.FaultRecord == "new":
+		if !strings.HasPrefix(res.FaultRaw, "S") {
+			return
+		}
+		nb := []byte(unhx(res.FaultRaw[1:]))
+		mrec, mtmp, ok := c13WriterCut(c, "a", old, true, nb, len(nb)+2)
+		if !ok || mrec != res.FaultRaw || mtmp != res.FaultTmp {
+			bad("a complete new record was observed together with a temp sibling: not a state of writeAtomicAt cut anywhere", map[string]string{"record": c13Short(mrec), "tmp": c13Short(mtmp)})
+		}
+	case strings.HasPrefix(res.FaultTmp, "S"):
+		tb := []byte(unhx(res.FaultTmp[1:]))
+		if spec.Fault == "fsize" && len(tb) != spec.FaultArg {
+			bad(fmt.Sprintf("under RLIMIT_FSIZE = %d the temp sibling holds %d bytes (the model: the open and exactly L bytes)", spec.FaultArg, len(tb)), nil)
+		}
+		mrec, mtmp, ok := c13WriterCut(c, "a", old, true, append(append([]byte{}, tb...), '}'), len(tb)+1)
+		if !ok || mrec != "S"+hx(string(old)) || mtmp != res.FaultTmp {
+			bad("old record + temp sibling is not the model's state after the open and |tmp| bytes", map[string]string{"record": c13Short(mrec), "tmp": c13Short(mtmp)})
+		}
+	}
 }
